@@ -1,5 +1,7 @@
 mod backoff;
 mod decoders;
+mod sim;
+mod sim_ps;
 mod topic;
 mod wire;
 mod util;
@@ -14,6 +16,7 @@ fn main() {
     match args[0].as_str() {
         "backoff" => backoff::main(&args[1..]),
         "topic" => topic::main(&args[1..]),
+        "ps" => sim_ps::main(&args[1..]),
         "decoders" => decoders::main(&args[1..]),
         "wire" => wire::main(&args[1..]),
         other => {
